@@ -706,6 +706,18 @@ pub fn drive(tier: &str) -> i32 {
     let b = bfs_transitions(&genr, if quick { 250 } else { 100_000 });
     let (states, transitions) = (b.discovered, b.transitions);
     let (bfs_expanded, bfs_levels, bfs_complete) = (b.expanded, b.levels, b.complete);
+    // the same state space enumerated by stateright on the residues themselves: the counts agree only if the
+    // residue vector is a sound canonical form (the successor residues depend on the residues alone)
+    let sr = vcore::srcheck::check_column_space(&genr.hist_forms, if bfs_complete { None } else { Some(bfs_levels.len()) });
+    if sr.unique_states != states {
+        run.machinery.push(format!("state-space cross-check: the driver's search discovered {} column states in {} levels, stateright {}", states, bfs_levels.len(), sr.unique_states));
+    }
+    for v in &sr.invariant_violations {
+        run.machinery.push(format!("state-space cross-check: the column model violates its own invariant '{}'", v));
+    }
+    for v in &sr.not_reached {
+        run.machinery.push(format!("non-vacuity: no explored model state satisfies '{}'", v));
+    }
     plan.push(json!({"group": "bfs", "model_states_discovered": states, "model_states_expanded": bfs_expanded, "states_per_level": bfs_levels,
         "reachable_state_space_covered_completely": bfs_complete, "transitions": transitions.len()}));
     for chunk in transitions.chunks(200) {
@@ -728,6 +740,9 @@ pub fn drive(tier: &str) -> i32 {
     ev.set("states_expanded", bfs_expanded as u64);
     ev.set("bfs_levels_fully_expanded", bfs_levels.len() as u64);
     ev.set("bfs_reachable_state_space_covered_completely", bfs_complete);
+    ev.set("stateright_cross_check", json!({"checker": "stateright 0.31 breadth-first, one thread, on residue vectors", "unique_states": sr.unique_states,
+        "agrees_with_driver_search": sr.unique_states == states, "transitions_generated": sr.generated_transitions, "max_depth": sr.max_depth,
+        "model_invariants_violated": sr.invariant_violations, "reachability_witnessed": sr.reached, "reachability_not_witnessed": sr.not_reached}));
     ev.set("traces_validated_against_impl", run.evaluations);
     ev.set("distinct_nontrivial", run.nontrivial);
     ev.assume("the line width (80 columns on the screen) is not modelled: the property text states no wrapping rule");
